@@ -28,6 +28,9 @@ CLAIMED = {
  'C09': (TV, 'parametric NLP vs reference with symbolic parameter entries (z3, all values at once) + relational inlined-constants comparison + tagged routing',
          'For every enumerated model with global/per-interval/control+/matrix/horizon parameters: (i) complete row bijection and objective equality against the reference in which every parameter entry is a symbol, so all parameter values are covered at once; named entries are distinct plain NLP parameters; (ii) tagged-value routing of set_value into opti.p (column k <-> interval k, extra column <-> final node, matrix layout) read back through the named quantities (ground); (iii) two real transcriptions - parameters bound to their values vs values written as constants - have equal rows/objective for all x and equal starting points; (iv) set_value call orders relative to transcription: final opti.p and NLP equal those of a fresh OCP.',
          'Values travel through CasADi\'s numeric store (assumed value-independent; checked with tagged values). Variables correspond by creation order.', '3/C09'),
+ 'C13': (TV, 'relational translation validation per enumerated history: evolved OCP vs fresh OCP with the final specification, rows/objective proven equal by z3; x0, p, iteration limit compared (ground)',
+         'Histories over 13 public operations (queries, solve_limited, set_value, set_initial, subject_to, clear_constraints, add_objective, method, solver, set_T, set_t0) after an initial transcription are enumerated (length<=2 exhaustively, length 3 sampled); for each the evolved OCP and a fresh OCP declared with the final specification are transcribed by the real code and their complete row multisets/objectives are proven equal for all decision vectors; starting point, parameter vector, declared lists and the solver iteration limit in effect are compared; an edit may be honoured or raise, never be silently ignored.',
+         'Histories are enumerated, not symbolic. Variable correspondence by creation order.', '3/C13'),
 }
 NA = {p: 'check not built yet in this round (see DESIGN.md section 3 for the plan)' for p in
       ['C02','C03','C04','C05','C06','C07','C08','C09','C10','C11','C12','C13','C14','C15','C16','C17','C18','C19']}
